@@ -84,11 +84,11 @@ class Pool:
         s.pool.terminate()
         s.pool.join()
 
-    def explore(s, spec, deadline, first_budget=8, budget=150, on_record=None, max_paths=None):
+    def explore(s, spec, deadline, first_budget=8, budget=150, on_record=None, max_paths=None, max_violating=200):
         """explore the whole decision tree of check `spec`; returns stats dict.
         stats['complete'] is True iff every path was explored before the deadline."""
         stats = {'paths': 0, 'transitions': 0, 'queries': 0, 'solver_time': 0.0, 'complete': False, 'errors': [], 'worker_time': 0.0,
-                 'called': set(), 'natives': set()}
+                 'called': set(), 'natives': set(), 'violating': 0, 'stopped_early': False}
         queue = [[]]
         inflight = []
         records = []
@@ -96,6 +96,9 @@ class Pool:
         while queue or inflight:
             now = time.time()
             if now >= deadline or stats['errors'] or (max_paths and stats['paths'] >= max_paths):
+                break
+            if stats['violating'] >= max_violating:
+                stats['stopped_early'] = True      # enough counterexamples: the verdict is already a violation
                 break
             while queue and len(inflight) < s.workers * 3:
                 p = queue.pop()
@@ -117,6 +120,7 @@ class Pool:
                     if res['err']:
                         stats['errors'].append(res['err'])
                     queue.extend(res['left'])
+                    stats['violating'] += sum(1 for rec in res['records'] if rec.get('violations'))
                     if on_record:
                         for rec in res['records']:
                             on_record(rec)
@@ -148,7 +152,7 @@ class Pool:
                         queue.extend(res['left'])
                 except mp.TimeoutError:
                     pass
-            stats['complete'] = not queue and not stats['errors'] and all(r.ready() for r in inflight)
+            stats['complete'] = (not queue and not stats['errors'] and all(r.ready() for r in inflight)) or stats['stopped_early']
         stats['wall'] = time.time() - t0
         stats['records'] = records
         stats['called'] = sorted(stats['called'])
